@@ -134,7 +134,8 @@ def run_inst(spec, run):
                         arr = pnd.boolean_ndarray(npshim.obj_matrix(e), variables=vs)
                     d.update(e=e, res=arr.to_list())
                 elif part == "from_list":
-                    cands = list(reversed(ids)) + ["__unknown__"]
+                    # candidate order of the given list: ids unknown to the context sit before, between and after known ones
+                    cands = [ids[-1], "__unknown__"] + list(reversed(ids[:-1])) + ["__other__"]
                     cls = pnd.boolean_ndarray if spec["cls"] == "boolean" else pnd.integer_ndarray
                     if spec["nested"]:
                         fl = [[ctx.bool("f%d_%d" % (g, k)) for k in range(len(cands))] for g in range(2)]
